@@ -355,7 +355,20 @@ where
                 return ControlFlow::Break(());
             }
         };
-        self.init_channel(&policy);
+        // Only create the MPC channels if this schedule is going to be accepted. A duplicate
+        // schedule is rejected below and must not replace the channel endpoints of a
+        // computation that is already under way.
+        let accepted_state = if is_leader {
+            matches!(self.state_kind, PolicyStateKind::Init)
+        } else {
+            matches!(
+                self.state_kind,
+                PolicyStateKind::Init | PolicyStateKind::ValidateRequested { .. }
+            )
+        };
+        if accepted_state {
+            self.init_channel(&policy);
+        }
 
         if is_leader {
             if !matches!(self.state_kind, PolicyStateKind::Init) {
